@@ -30,9 +30,12 @@ Lemma Subseq_snoc {A} (a b : list A) x : Subseq a b -> Subseq (a ++ [x]) (b ++ [
 Proof. intros H. apply Subseq_app; [assumption|apply Subseq_refl]. Qed.
 
 Definition notdone (r : resp) : bool := match r_kind r with RDone => false | _ => true end.
+(* what a stream hands to its caller: a direct one everything but the final message; behind EntriesOnly the entries only *)
+Definition shown (k : kind) (r : resp) : bool :=
+  match r_kind r with RDone => false | REntry => true | _ => match k with KSearch true => false | _ => true end end.
 
 (* the fields the order invariant reads *)
-Definition view (c : cop) := (o_items c, o_taken c, o_got c).
+Definition view (c : cop) := (o_items c, o_taken c, o_got c, o_kind c).
 Definition logs (s : st) := (processed s, win s, sent s).
 Definition vpres (s x : st) : Prop :=
   logs x = logs s /\ length (ops x) = length (ops s) /\ forall o c, getop s o = Some c -> exists c', getop x o = Some c' /\ view c' = view c.
@@ -75,7 +78,7 @@ Record Ord (s : st) : Prop := {
   od_log : map fst (processed s) ++ win s = sent s;
   od_items : forall o c, getop s o = Some c -> Subseq (o_items c) (map fst (processed s));
   od_taken : forall o c, getop s o = Some c -> (o_taken c <= length (o_items c))%nat;
-  od_got : forall o c, getop s o = Some c -> o_got c = filter notdone (firstn (o_taken c) (o_items c)) }.
+  od_got : forall o c, getop s o = Some c -> o_got c = filter (shown (o_kind c)) (firstn (o_taken c) (o_items c)) }.
 
 Lemma vpres_back s x o c' : vpres s x -> getop x o = Some c' -> exists c, getop s o = Some c /\ view c' = view c.
 Proof. intros (_ & L & H) Hc'. destruct (getop s o) as [c|] eqn:Hc.
@@ -86,15 +89,15 @@ Lemma Ord_vpres s x : Ord s -> vpres s x -> Ord x.
 Proof.
   intros O V. assert (El : logs x = logs s) by apply V. injection El as Ep Ew Es. constructor.
   - rewrite Ep, Ew, Es. apply O.
-  - intros o c' Hc'. destruct (vpres_back _ _ _ _ V Hc') as (c & Hc & E). injection E as E1 E2 E3. rewrite Ep, E1. exact (od_items s O o c Hc).
-  - intros o c' Hc'. destruct (vpres_back _ _ _ _ V Hc') as (c & Hc & E). injection E as E1 E2 E3. rewrite E1, E2. exact (od_taken s O o c Hc).
-  - intros o c' Hc'. destruct (vpres_back _ _ _ _ V Hc') as (c & Hc & E). injection E as E1 E2 E3. rewrite E1, E2, E3. exact (od_got s O o c Hc).
+  - intros o c' Hc'. destruct (vpres_back _ _ _ _ V Hc') as (c & Hc & E). injection E as E1 E2 E3 E4. rewrite Ep, E1. exact (od_items s O o c Hc).
+  - intros o c' Hc'. destruct (vpres_back _ _ _ _ V Hc') as (c & Hc & E). injection E as E1 E2 E3 E4. rewrite E1, E2. exact (od_taken s O o c Hc).
+  - intros o c' Hc'. destruct (vpres_back _ _ _ _ V Hc') as (c & Hc & E). injection E as E1 E2 E3 E4. rewrite E1, E2, E3, E4. exact (od_got s O o c Hc).
 Qed.
 
 Lemma Ord_init f : Ord (init f).
 Proof. constructor; try reflexivity; intros o c H; unfold getop in H; cbn in H; destruct o; discriminate. Qed.
 
-Lemma Ord_app s x cn : Ord s -> ops x = ops s ++ [cn] -> view cn = ([], 0%nat, []) -> logs x = logs s -> Ord x.
+Lemma Ord_app s x cn : Ord s -> ops x = ops s ++ [cn] -> (o_items cn, o_taken cn, o_got cn) = ([], 0%nat, []) -> logs x = logs s -> Ord x.
 Proof.
   intros O Eo Ev El. injection El as Ep Ew Es. injection Ev as V1 V2 V3.
   assert (G : forall o c', getop x o = Some c' -> getop s o = Some c' \/ c' = cn).
@@ -113,7 +116,7 @@ Lemma Ord_upd1 s x o c g : Ord s -> getop s o = Some c -> ops x = upd o g (ops s
   (forall o' c', getop s o' = Some c' -> Subseq (o_items c') (map fst (processed x))) ->
   Subseq (o_items (g c)) (map fst (processed x)) ->
   (o_taken (g c) <= length (o_items (g c)))%nat ->
-  o_got (g c) = filter notdone (firstn (o_taken (g c)) (o_items (g c))) -> Ord x.
+  o_got (g c) = filter (shown (o_kind (g c))) (firstn (o_taken (g c)) (o_items (g c))) -> Ord x.
 Proof.
   intros O Hc Eo Hl Hold Hi Ht Hg.
   assert (G : forall o' c', getop x o' = Some c' -> (o' <> o /\ getop s o' = Some c') \/ (o' = o /\ c' = g c)).
@@ -198,11 +201,12 @@ Proof.
     destruct (o_rx c); cbn [negb]; [|apply (Ord_vpres s); [exact O|repeat vstrip]].
     destruct (nth_error (o_items c) (o_taken c)) as [r|] eqn:En.
     + assert (Hlt : (o_taken c < length (o_items c))%nat) by (apply nth_error_Some; congruence).
-      destruct (r_kind r) eqn:Ek.
+      pose proof (od_got s O _ _ Ec) as Hg. revert Hg.
+      destruct (r_kind r) eqn:Ek; try (destruct (o_kind c) as [|[|]| |] eqn:Eko); intros Hg.
       all: match goal with |- Ord (updop ?oo ?g ?ss) => apply (Ord_upd1 ss _ oo c g); try assumption; try reflexivity end.
       all: try apply (od_log s O); try (intros o' c' H'; exact (od_items s O _ _ H')); try exact (od_items s O _ _ Ec).
       all: try (cbn [o_taken o_items set]; lia).
-      all: cbn [o_taken o_items o_got set]; rewrite (firstn_S_nth _ _ _ En), filter_app; cbn [filter]; unfold notdone at 2; rewrite Ek, <- (od_got s O _ _ Ec); try reflexivity; symmetry; apply app_nil_r.
+      all: cbn [o_taken o_items o_got o_kind set]; rewrite ?Eko; rewrite (firstn_S_nth _ _ _ En), filter_app; cbn [filter]; unfold shown at 2; rewrite Ek, <- Hg; try reflexivity; symmetry; apply app_nil_r.
     + apply (Ord_vpres s); [exact O|]. destruct (o_chan c); cbn [negb]; [|repeat vstrip].
       destruct (o_tmo c) as [d|]; [|repeat vstrip]. match goal with |- context [if ?b then _ else _] => destruct b end; [|repeat vstrip].
       destruct (is_running s); repeat vstrip.
@@ -230,7 +234,7 @@ Proof.
 Qed.
 
 (* nothing is skipped on the caller's side: the stream hands over exactly the first [o_taken] items pushed for it, minus the final Done *)
-Theorem c01_no_gaps f evs o c : getop (run f evs) o = Some c -> o_got c = filter notdone (firstn (o_taken c) (o_items c)).
+Theorem c01_no_gaps f evs o c : getop (run f evs) o = Some c -> o_got c = filter (shown (o_kind c)) (firstn (o_taken c) (o_items c)).
 Proof. intros Hc. exact (od_got _ (reachable_Ord f evs) _ _ Hc). Qed.
 
 (* the hypotheses are met by a history with two searches whose entries interleave on the wire *)
